@@ -309,6 +309,20 @@ module Pos =
              | XO _ -> Npos XH
              | _ -> N0)
 
+  (** val testbit : positive -> n -> bool **)
+
+  let rec testbit p n0 =
+    match p with
+    | XI p0 -> (match n0 with
+                | N0 -> true
+                | Npos n1 -> testbit p0 (pred_N n1))
+    | XO p0 -> (match n0 with
+                | N0 -> false
+                | Npos n1 -> testbit p0 (pred_N n1))
+    | XH -> (match n0 with
+             | N0 -> true
+             | Npos _ -> false)
+
   (** val iter_op : ('a1 -> 'a1 -> 'a1) -> positive -> 'a1 -> 'a1 **)
 
   let rec iter_op op0 p a =
@@ -354,6 +368,13 @@ module N =
     | Npos p -> (match m with
                  | N0 -> n0
                  | Npos q -> Pos.ldiff p q)
+
+  (** val testbit : n -> n -> bool **)
+
+  let testbit a n0 =
+    match a with
+    | N0 -> false
+    | Npos p -> Pos.testbit p n0
  end
 
 module Z =
@@ -569,6 +590,17 @@ module Z =
   let modulo a b =
     let (_, r) = div_eucl a b in r
 
+  (** val odd : z -> bool **)
+
+  let odd = function
+  | Z0 -> false
+  | Zpos p -> (match p with
+               | XO _ -> false
+               | _ -> true)
+  | Zneg p -> (match p with
+               | XO _ -> false
+               | _ -> true)
+
   (** val div2 : z -> z **)
 
   let div2 = function
@@ -577,6 +609,17 @@ module Z =
                | XH -> Z0
                | _ -> Zpos (Pos.div2 p))
   | Zneg p -> Zneg (Pos.div2_up p)
+
+  (** val testbit : z -> z -> bool **)
+
+  let testbit a = function
+  | Z0 -> odd a
+  | Zpos p ->
+    (match a with
+     | Z0 -> false
+     | Zpos a0 -> Pos.testbit a0 (Npos p)
+     | Zneg a0 -> negb (N.testbit (Pos.pred_N a0) (Npos p)))
+  | Zneg _ -> false
 
   (** val shiftl : z -> z -> z **)
 
@@ -842,6 +885,207 @@ let until_index =
 
 let until_try_num num =
   num
+
+(** val fw_push_default_value : z **)
+
+let fw_push_default_value =
+  Z.add
+    (Z.add (Z.mul (Zpos XH) (Zpos (XO (XO XH))))
+      (Z.mul (Zpos XH) (Zpos (XO XH)))) (Zpos XH)
+
+(** val fw_push_default_cb : z **)
+
+let fw_push_default_cb =
+  Z.add
+    (Z.add (Z.mul (Zpos XH) (Zpos (XO (XO XH))))
+      (Z.mul (Zpos XH) (Zpos (XO XH)))) (Zpos XH)
+
+(** val fw_push_value : z -> z -> z -> z **)
+
+let fw_push_value c w k =
+  Z.add (Z.add (Z.mul c (Zpos (XO (XO XH)))) (Z.mul w (Zpos (XO XH)))) k
+
+(** val fw_push_core : z -> z -> z **)
+
+let fw_push_core w k =
+  Z.add (Z.add (Z.mul w (Zpos (XO (XO XH)))) (Z.mul k (Zpos (XO XH)))) (Zpos
+    XH)
+
+(** val fw_try_push_value : z -> z -> z **)
+
+let fw_try_push_value c k =
+  Z.add (Z.mul c (Zpos (XO XH))) k
+
+(** val fw_try_push_core : z -> z -> z **)
+
+let fw_try_push_core c k =
+  Z.add (Z.add (Z.mul c (Zpos (XO (XO XH)))) (Z.mul k (Zpos (XO XH)))) (Zpos
+    XH)
+
+(** val fw_push_n_default_it : z **)
+
+let fw_push_n_default_it =
+  Z.add
+    (Z.add (Z.mul (Zpos XH) (Zpos (XO (XO XH))))
+      (Z.mul (Zpos XH) (Zpos (XO XH)))) (Zpos XH)
+
+(** val fw_push_n_default_cb : z **)
+
+let fw_push_n_default_cb =
+  Z.add
+    (Z.add (Z.mul (Zpos XH) (Zpos (XO (XO XH))))
+      (Z.mul (Zpos XH) (Zpos (XO XH)))) (Zpos XH)
+
+(** val fw_push_n_it : z -> z -> z -> z **)
+
+let fw_push_n_it c w k =
+  Z.add (Z.add (Z.mul c (Zpos (XO (XO XH)))) (Z.mul w (Zpos (XO XH)))) k
+
+(** val fw_push_n_core_whole : z -> z -> z **)
+
+let fw_push_n_core_whole w k =
+  Z.add (Z.add (Z.mul w (Zpos (XO (XO XH)))) (Z.mul k (Zpos (XO XH)))) (Zpos
+    XH)
+
+(** val fw_push_n_core_first : z -> z -> z **)
+
+let fw_push_n_core_first w k =
+  Z.add (Z.add (Z.mul w (Zpos (XO (XO XH)))) (Z.mul k (Zpos (XO XH)))) (Zpos
+    XH)
+
+(** val fw_push_n_core_second : z -> z -> z **)
+
+let fw_push_n_core_second w k =
+  Z.add (Z.add (Z.mul w (Zpos (XO (XO XH)))) (Z.mul k (Zpos (XO XH)))) (Zpos
+    XH)
+
+(** val fw_try_push_n_core_whole : z -> z -> z **)
+
+let fw_try_push_n_core_whole c k =
+  Z.add (Z.add (Z.mul c (Zpos (XO (XO XH)))) (Z.mul k (Zpos (XO XH)))) (Zpos
+    XH)
+
+(** val fw_try_push_n_core_first : z -> z -> z **)
+
+let fw_try_push_n_core_first c k =
+  Z.add (Z.add (Z.mul c (Zpos (XO (XO XH)))) (Z.mul k (Zpos (XO XH)))) (Zpos
+    XH)
+
+(** val fw_try_push_n_core_second : z -> z -> z **)
+
+let fw_try_push_n_core_second c k =
+  Z.add (Z.add (Z.mul c (Zpos (XO (XO XH)))) (Z.mul k (Zpos (XO XH)))) (Zpos
+    XH)
+
+(** val fw_pop_default_ref : z **)
+
+let fw_pop_default_ref =
+  Z.add
+    (Z.add (Z.mul (Zpos XH) (Zpos (XO (XO XH))))
+      (Z.mul (Zpos XH) (Zpos (XO XH)))) (Zpos XH)
+
+(** val fw_pop_default_cb : z **)
+
+let fw_pop_default_cb =
+  Z.add
+    (Z.add (Z.mul (Zpos XH) (Zpos (XO (XO XH))))
+      (Z.mul (Zpos XH) (Zpos (XO XH)))) (Zpos XH)
+
+(** val fw_pop_ptr : z -> z -> z -> z **)
+
+let fw_pop_ptr c w k =
+  Z.add (Z.add (Z.mul c (Zpos (XO (XO XH)))) (Z.mul w (Zpos (XO XH)))) k
+
+(** val fw_pop_ref : z -> z -> z -> z **)
+
+let fw_pop_ref c w k =
+  Z.add (Z.add (Z.mul c (Zpos (XO (XO XH)))) (Z.mul w (Zpos (XO XH)))) k
+
+(** val fw_pop_core : z -> z -> z **)
+
+let fw_pop_core w k =
+  Z.add (Z.add (Z.mul w (Zpos (XO (XO XH)))) (Z.mul k (Zpos (XO XH)))) Z0
+
+(** val fw_pop_default_ptr : z **)
+
+let fw_pop_default_ptr =
+  Z.add
+    (Z.add (Z.mul (Zpos XH) (Zpos (XO (XO XH))))
+      (Z.mul (Zpos XH) (Zpos (XO XH)))) (Zpos XH)
+
+(** val fw_try_pop_default_ref : z **)
+
+let fw_try_pop_default_ref =
+  Z.add (Z.mul (Zpos XH) (Zpos (XO XH))) (Zpos XH)
+
+(** val fw_try_pop_default_cb : z **)
+
+let fw_try_pop_default_cb =
+  Z.add (Z.mul (Zpos XH) (Zpos (XO XH))) (Zpos XH)
+
+(** val fw_try_pop_ref : z -> z -> z **)
+
+let fw_try_pop_ref c k =
+  Z.add (Z.mul c (Zpos (XO XH))) k
+
+(** val fw_try_pop_core : z -> z -> z **)
+
+let fw_try_pop_core c k =
+  Z.add (Z.add (Z.mul c (Zpos (XO (XO XH)))) (Z.mul k (Zpos (XO XH)))) Z0
+
+(** val fw_pop_n_default_it : z **)
+
+let fw_pop_n_default_it =
+  Z.add
+    (Z.add (Z.mul (Zpos XH) (Zpos (XO (XO XH))))
+      (Z.mul (Zpos XH) (Zpos (XO XH)))) (Zpos XH)
+
+(** val fw_pop_n_default_cb : z **)
+
+let fw_pop_n_default_cb =
+  Z.add
+    (Z.add (Z.mul (Zpos XH) (Zpos (XO (XO XH))))
+      (Z.mul (Zpos XH) (Zpos (XO XH)))) (Zpos XH)
+
+(** val fw_pop_n_it : z -> z -> z -> z **)
+
+let fw_pop_n_it c w k =
+  Z.add (Z.add (Z.mul c (Zpos (XO (XO XH)))) (Z.mul w (Zpos (XO XH)))) k
+
+(** val fw_pop_n_core_whole : z -> z -> z **)
+
+let fw_pop_n_core_whole w k =
+  Z.add (Z.add (Z.mul w (Zpos (XO (XO XH)))) (Z.mul k (Zpos (XO XH)))) Z0
+
+(** val fw_pop_n_core_first : z -> z -> z **)
+
+let fw_pop_n_core_first w k =
+  Z.add (Z.add (Z.mul w (Zpos (XO (XO XH)))) (Z.mul k (Zpos (XO XH)))) Z0
+
+(** val fw_pop_n_core_second : z -> z -> z **)
+
+let fw_pop_n_core_second w k =
+  Z.add (Z.add (Z.mul w (Zpos (XO (XO XH)))) (Z.mul k (Zpos (XO XH)))) Z0
+
+(** val fw_try_pop_n_core_whole : z -> z -> z **)
+
+let fw_try_pop_n_core_whole c k =
+  Z.add (Z.add (Z.mul c (Zpos (XO (XO XH)))) (Z.mul k (Zpos (XO XH)))) Z0
+
+(** val fw_try_pop_n_core_first : z -> z -> z **)
+
+let fw_try_pop_n_core_first c k =
+  Z.add (Z.add (Z.mul c (Zpos (XO (XO XH)))) (Z.mul k (Zpos (XO XH)))) Z0
+
+(** val fw_try_pop_n_core_second : z -> z -> z **)
+
+let fw_try_pop_n_core_second c k =
+  Z.add (Z.add (Z.mul c (Zpos (XO (XO XH)))) (Z.mul k (Zpos (XO XH)))) Z0
+
+(** val fw_until_core : z -> z **)
+
+let fw_until_core k =
+  Z.add (Z.mul Z0 (Zpos (XO XH))) k
 
 (** val wait_ready : z -> z -> bool **)
 
@@ -1897,3 +2141,257 @@ let usage_ok k progs =
     ((&&)
       ((&&) ((&&) (excl_ok true progs) (excl_ok false progs))
         (wake_ok true progs)) (wake_ok false progs)) (size_ok k progs)
+
+type entry =
+| EnCb
+| EnVal
+| EnPtr
+| EnIt
+| EnDefCb
+| EnDefVal
+| EnDefPtr
+| EnDefIt
+
+type call = { c_entry : entry; c_op : op }
+
+(** val bz : bool -> z **)
+
+let bz = function
+| true -> Zpos XH
+| false -> Z0
+
+(** val f3 : z -> flags **)
+
+let f3 z0 =
+  { conc = (Z.testbit z0 (Zpos (XO XH))); fwait = (Z.testbit z0 (Zpos XH));
+    fwake = (Z.testbit z0 Z0) }
+
+(** val f2 : z -> flags -> flags **)
+
+let f2 z0 f =
+  { conc = (Z.testbit z0 (Zpos XH)); fwait = f.fwait; fwake =
+    (Z.testbit z0 Z0) }
+
+(** val via3 : (z -> z -> z -> z) -> flags -> flags **)
+
+let via3 g f =
+  f3 (g (bz f.conc) (bz f.fwait) (bz f.fwake))
+
+(** val via2 : (z -> z -> z) -> flags -> flags **)
+
+let via2 g f =
+  f2 (g (bz f.conc) (bz f.fwake)) f
+
+(** val core_wk : (z -> z -> z) -> flags -> flags **)
+
+let core_wk g f =
+  let z0 = g (bz f.fwait) (bz f.fwake) in
+  { conc = f.conc; fwait = (Z.testbit z0 (Zpos (XO XH))); fwake =
+  (Z.testbit z0 (Zpos XH)) }
+
+(** val core_ck : (z -> z -> z) -> flags -> flags **)
+
+let core_ck g f =
+  let z0 = g (bz f.conc) (bz f.fwake) in
+  { conc = (Z.testbit z0 (Zpos (XO XH))); fwait = f.fwait; fwake =
+  (Z.testbit z0 (Zpos XH)) }
+
+(** val until_flags : flags -> flags **)
+
+let until_flags f =
+  let z0 = fw_until_core (bz f.fwake) in
+  { conc = f.conc; fwait = f.fwait; fwake = (Z.testbit z0 Z0) }
+
+(** val lower_flags : op -> entry -> flags option **)
+
+let lower_flags o e =
+  let f = oflags o in
+  (match o with
+   | OPush (_, _) ->
+     (match e with
+      | EnCb -> Some (core_wk fw_push_core f)
+      | EnVal -> Some (core_wk fw_push_core (via3 fw_push_value f))
+      | EnDefCb -> Some (core_wk fw_push_core (f3 fw_push_default_cb))
+      | EnDefVal ->
+        Some
+          (core_wk fw_push_core
+            (via3 fw_push_value (f3 fw_push_default_value)))
+      | _ -> None)
+   | OPop _ ->
+     (match e with
+      | EnCb -> Some (core_wk fw_pop_core f)
+      | EnVal -> Some (core_wk fw_pop_core (via3 fw_pop_ref f))
+      | EnPtr ->
+        Some (core_wk fw_pop_core (via3 fw_pop_ref (via3 fw_pop_ptr f)))
+      | EnDefCb -> Some (core_wk fw_pop_core (f3 fw_pop_default_cb))
+      | EnDefVal ->
+        Some (core_wk fw_pop_core (via3 fw_pop_ref (f3 fw_pop_default_ref)))
+      | EnDefPtr ->
+        Some
+          (core_wk fw_pop_core
+            (via3 fw_pop_ref (via3 fw_pop_ptr (f3 fw_pop_default_ptr))))
+      | _ -> None)
+   | OTryPush (_, _) ->
+     (match e with
+      | EnCb -> Some (core_ck fw_try_push_core f)
+      | EnVal -> Some (core_ck fw_try_push_core (via2 fw_try_push_value f))
+      | _ -> None)
+   | OTryPop _ ->
+     (match e with
+      | EnCb -> Some (core_ck fw_try_pop_core f)
+      | EnVal -> Some (core_ck fw_try_pop_core (via2 fw_try_pop_ref f))
+      | EnDefCb -> Some (core_ck fw_try_pop_core (f2 fw_try_pop_default_cb f))
+      | EnDefVal ->
+        Some
+          (core_ck fw_try_pop_core
+            (via2 fw_try_pop_ref (f2 fw_try_pop_default_ref f)))
+      | _ -> None)
+   | OPushN (_, _) ->
+     (match e with
+      | EnCb -> Some (core_wk fw_push_n_core_whole f)
+      | EnIt -> Some (core_wk fw_push_n_core_whole (via3 fw_push_n_it f))
+      | EnDefCb ->
+        Some (core_wk fw_push_n_core_whole (f3 fw_push_n_default_cb))
+      | EnDefIt ->
+        Some
+          (core_wk fw_push_n_core_whole
+            (via3 fw_push_n_it (f3 fw_push_n_default_it)))
+      | _ -> None)
+   | OPopN (_, _) ->
+     (match e with
+      | EnCb -> Some (core_wk fw_pop_n_core_whole f)
+      | EnIt -> Some (core_wk fw_pop_n_core_whole (via3 fw_pop_n_it f))
+      | EnDefCb -> Some (core_wk fw_pop_n_core_whole (f3 fw_pop_n_default_cb))
+      | EnDefIt ->
+        Some
+          (core_wk fw_pop_n_core_whole
+            (via3 fw_pop_n_it (f3 fw_pop_n_default_it)))
+      | _ -> None)
+   | OTryPushN (_, _) ->
+     (match e with
+      | EnCb -> Some (core_ck fw_try_push_n_core_whole f)
+      | _ -> None)
+   | OTryPopN (_, _) ->
+     (match e with
+      | EnCb -> Some (core_ck fw_try_pop_n_core_whole f)
+      | _ -> None)
+   | OPopUntil (_, _, _) ->
+     (match e with
+      | EnCb -> Some (core_ck fw_try_pop_n_core_whole (until_flags f))
+      | _ -> None))
+
+(** val with_flags : op -> flags -> op **)
+
+let with_flags o f =
+  match o with
+  | OPush (_, v) -> OPush (f, v)
+  | OPop _ -> OPop f
+  | OTryPush (_, v) -> OTryPush (f, v)
+  | OTryPop _ -> OTryPop f
+  | OPushN (_, vs) -> OPushN (f, vs)
+  | OPopN (_, n0) -> OPopN (f, n0)
+  | OTryPushN (_, vs) -> OTryPushN (f, vs)
+  | OTryPopN (_, n0) -> OTryPopN (f, n0)
+  | OPopUntil (_, n0, t) -> OPopUntil (f, n0, t)
+
+(** val lower : call -> op **)
+
+let lower c =
+  match lower_flags c.c_op c.c_entry with
+  | Some f -> with_flags c.c_op f
+  | None -> c.c_op
+
+(** val lower_progs : call list list -> op list list **)
+
+let lower_progs cp =
+  map (map lower) cp
+
+(** val declared : call list list -> op list list **)
+
+let declared cp =
+  map (map (fun c -> c.c_op)) cp
+
+(** val eqf : flags -> flags -> bool **)
+
+let eqf a b =
+  (&&) ((&&) (eqb a.conc b.conc) (eqb a.fwait b.fwait)) (eqb a.fwake b.fwake)
+
+(** val fdefault : flags **)
+
+let fdefault =
+  { conc = true; fwait = true; fwake = true }
+
+(** val entry_ok : call -> bool **)
+
+let entry_ok c =
+  match lower_flags c.c_op c.c_entry with
+  | Some _ ->
+    (match c.c_entry with
+     | EnCb -> true
+     | EnVal -> true
+     | EnPtr -> true
+     | EnIt -> true
+     | _ ->
+       (match okind c.c_op with
+        | KTry -> (&&) (oflags c.c_op).conc (oflags c.c_op).fwake
+        | _ -> eqf (oflags c.c_op) fdefault))
+  | None -> false
+
+(** val calls_ok : call list list -> bool **)
+
+let calls_ok cp =
+  forallb (forallb entry_ok) cp
+
+(** val all2 : (z -> z -> bool) -> bool **)
+
+let all2 p =
+  (&&) ((&&) ((&&) (p Z0 Z0) (p Z0 (Zpos XH))) (p (Zpos XH) Z0))
+    (p (Zpos XH) (Zpos XH))
+
+(** val same2 : (z -> z -> z) -> (z -> z -> z) -> bool **)
+
+let same2 g h =
+  all2 (fun a b -> Z.eqb (g a b) (h a b))
+
+(** val role2 : (z -> z -> z) -> bool -> bool **)
+
+let role2 g push =
+  all2 (fun a b -> eqb (Z.testbit (g a b) Z0) push)
+
+(** val cores_ok : bool **)
+
+let cores_ok =
+  (&&)
+    ((&&)
+      ((&&)
+        ((&&)
+          ((&&)
+            ((&&)
+              ((&&)
+                ((&&)
+                  ((&&)
+                    ((&&)
+                      ((&&)
+                        ((&&)
+                          ((&&)
+                            ((&&)
+                              ((&&)
+                                ((&&)
+                                  ((&&) (role2 fw_push_core true)
+                                    (role2 fw_pop_core false))
+                                  (role2 fw_try_push_core true))
+                                (role2 fw_try_pop_core false))
+                              (role2 fw_push_n_core_whole true))
+                            (same2 fw_push_n_core_whole fw_push_n_core_first))
+                          (same2 fw_push_n_core_whole fw_push_n_core_second))
+                        (role2 fw_pop_n_core_whole false))
+                      (same2 fw_pop_n_core_whole fw_pop_n_core_first))
+                    (same2 fw_pop_n_core_whole fw_pop_n_core_second))
+                  (role2 fw_try_push_n_core_whole true))
+                (same2 fw_try_push_n_core_whole fw_try_push_n_core_first))
+              (same2 fw_try_push_n_core_whole fw_try_push_n_core_second))
+            (role2 fw_try_pop_n_core_whole false))
+          (same2 fw_try_pop_n_core_whole fw_try_pop_n_core_first))
+        (same2 fw_try_pop_n_core_whole fw_try_pop_n_core_second))
+      (negb (Z.testbit (fw_until_core Z0) (Zpos XH))))
+    (negb (Z.testbit (fw_until_core (Zpos XH)) (Zpos XH)))
